@@ -41,10 +41,80 @@ func init() {
 				NeedCounters: []string{"recv-timeout-exact-beside-waiting-send"}},
 			{Name: "two-senders-one-slot-each-with-the-deadline", Mode: "sched", Bound: b + 1, Reset: kit.ResetGlobals, Body: twoSendersOneSlot},
 			{Name: "best-effort-switched-during-a-send", Mode: "sched", Bound: b + 1, Reset: kit.ResetGlobals, Body: bestEffortSwitched},
+			{Name: "fail-no-peers-switched-off-after-the-last-peer-left", Mode: "sched", Bound: b, Reset: kit.ResetGlobals, Body: FailNoPeersOff},
 			{Name: "fail-no-peers", Mode: "enum", Bound: b, Reset: kit.ResetGlobals, Body: failNoPeers,
 				NeedCounters: []string{"nopeers-at-call", "nopeers-when-last-peer-leaves", "one-of-two-peers-leaves", "peers-come-and-go"}},
 		}
 	})
+}
+
+// FailNoPeersOff: fail-no-peers is switched on, a peer comes and goes (a Send with nobody connected
+// fails at once, as it must), then the mode is switched OFF again - accepted, Get answers false.
+// From then on a Send with nobody connected is an ordinary Send: it queues the message while there
+// is room (write queue of one) and otherwise waits for its send deadline - ErrSendTimeout after
+// exactly d, never ErrNoPeers.  All interleavings within the bound (which select case wins is a
+// scheduling decision).  Also run under C19: an accepted option value takes effect.
+func FailNoPeersOff() {
+	var ks []*kinds.Kind
+	for _, k := range kinds.All {
+		if k.CanSend && !k.NeedReq {
+			ks = append(ks, k)
+		}
+	}
+	k := ks[kit.ChooseFree(len(ks))]
+	cycles := 1 + kit.ChooseFree(2)
+	x := k.Open("c18off", false, true)
+	x.Quiet()
+	_ = x.S.SetOption(mangos.OptionWriteQLen, 1)
+	if err := x.S.SetOption(mangos.OptionFailNoPeers, true); err != nil {
+		if err == mangos.ErrBadOption {
+			kit.Observe("%s no such mode", k.Name)
+			return
+		}
+		kit.Failf("failnopeers-set:"+k.Name, "SetOption(FailNoPeers): %s", kit.ErrName(err))
+	}
+	d := 50 * time.Millisecond
+	for c := 0; c < cycles; c++ {
+		p := x.EP.Connect()
+		kit.Quiesce()
+		p.DropNow()
+		kit.Quiesce()
+	}
+	x.PrepSend()
+	c0 := kit.Start("Send:mode-on", func() (interface{}, error) { return nil, x.Send("on") })
+	kit.Quiesce()
+	if !c0.Done() || c0.Err != mangos.ErrNoPeers {
+		kit.Failf("nopeers-send:"+k.Name, "%s: fail-no-peers set, the last peer has left: Send done=%v %s, want ErrNoPeers", k.Name, c0.Done(), kit.ErrName(c0.Err))
+	}
+	if err := x.S.SetOption(mangos.OptionFailNoPeers, false); err != nil {
+		kit.Failf("failnopeers-unset:"+k.Name, "SetOption(FailNoPeers, false): %s", kit.ErrName(err))
+	}
+	if v, err := x.S.GetOption(mangos.OptionFailNoPeers); err != nil || v != false {
+		kit.Failf("failnopeers-get:"+k.Name, "FailNoPeers reads %v (%s) after false was set", v, kit.ErrName(err))
+	}
+	if err := x.S.SetOption(mangos.OptionSendDeadline, d); err != nil {
+		kit.Failf("setup", "SendDeadline: %s", kit.ErrName(err))
+	}
+	for i := 0; i < 3; i++ {
+		x.PrepSend()
+		cl := kit.Start("Send:mode-off", func() (interface{}, error) { return nil, x.Send(fmt.Sprintf("off-%d", i)) })
+		kit.Quiesce()
+		kit.Sleep(d)
+		kit.Quiesce()
+		if !cl.Done() {
+			kit.Failf("send-hangs-beyond-deadline:"+k.Name, "%s: Send with a %v deadline and nobody connected is still blocked after %v", k.Name, d, d)
+		}
+		switch {
+		case cl.Err == nil && cl.T1 == cl.T0:
+			kit.Count("queued-with-the-mode-off")
+		case cl.Err == mangos.ErrSendTimeout && cl.T1-cl.T0 == d:
+			kit.Count("timed-out-with-the-mode-off")
+		default:
+			kit.Failf("nopeers-although-switched-off:"+k.Name, "%s: fail-no-peers was switched off again (Get answers false) and nobody is connected: Send %d returned %s after %v; want it queued at once or ErrSendTimeout after exactly %v", k.Name, i, kit.ErrName(cl.Err), cl.T1-cl.T0, d)
+		}
+	}
+	kit.Observe("%s %d", k.Name, cycles)
+	kit.Must("Close", func() { _ = x.S.Close() })
 }
 
 // sendDeadlineScope: a send deadline governs the Send call it was set for and nothing else.  A
